@@ -43,7 +43,7 @@ CLAIMED["C13"] = dict(
    note="Budget: 3e6 executor steps per operation; a single SII word read more than 70000 times counts as a loop.",
    technique="deterministic simulation with device-side fault injection (sii_garbage) under two arithmetic profiles; panic/step/loop monitors", section="DESIGN.md §4 C13")
 CLAIMED["C14"] = dict(
-   text="set_alias_address over random header words and alias values with 0..25 injected SII command errors, busy polls or a permanently busy device, and typed generic writes of 1/2/4/8 bytes at drawn word addresses; oracle: the EEPROM array diff equals {alias word, CRC word} with the CRC-8 recomputed independently, alias reported, bounded write commands, busy => timeout, generic writes store exactly the bytes (odd tail zero padded).",
+   text="set_alias_address over random header words and alias values with 0..25 injected SII command errors, busy polls or a permanently busy device, and typed generic writes of 1/2/4/8 bytes and 3/5/7-byte range writes (guarded hook) at drawn word addresses; images with stale checksum words, requests for the alias the device already holds, and a retried request after an attempt that stored only the alias word; oracle: the EEPROM array diff equals {alias word, CRC word} with the CRC-8 recomputed independently, alias reported, bounded write commands, busy => timeout, generic writes store exactly the bytes (odd tail zero padded).",
    note="The model stores a word when the write command executes; command-error and busy bits follow the ESC datasheet.",
    technique="deterministic simulation: real EEPROM write path over a simulated SII with injected command errors/busy, array-diff oracle", section="DESIGN.md §4 C14")
 
@@ -62,8 +62,8 @@ CLAIMED["C10"] = dict(
    technique="deterministic simulation with device-side fault injection (dev_lag, dev_refuse, stall, dev_fallback, dropout) under a virtual clock; reference recomputation of summaries", section="DESIGN.md §4 C10")
 CLAIMED["C11"] = dict(
    category="fault_enumeration",
-   text="For each configuration and each public data-returning entry point (receive, receive_slice, send_receive, send_receive_slice, register_read/write, with_wkc 0..3 against present and absent addresses, BRD with wkc n, status, eeprom_read_raw, eeprom_read, eeprom_size, sdo_read, sdo_write, sdo_read_array, into_safe_op, into_op) the healthy run counts the datagrams the target device services; the operation is then repeated once per position with the device silent from there on, once per position with only that datagram unanswered, and with the working counter increment replaced by 0/2/3/0xffff. Never Ok for a silent device; single-datagram entry points give exactly WorkingCounter{expected, received} with the wire's values; 'only datagram j unanswered' may fail or must return exactly the healthy result.",
-   note="Positions are enumerated exhaustively per (configuration, entry point); configurations are seeded samples. WrappedWrite::send is outside the quantifier.",
+   text="For each configuration and each public data-returning entry point (receive, receive_slice, send_receive, send_receive_slice, register_read/write, with_wkc 0..3 against present and absent addresses, BRD with wkc n, status, eeprom_read_raw, eeprom_read, eeprom_size, sdo_read, sdo_write, sdo_read_array, sdo_write_array, SDO information services, aprd/apwr, eeprom_write_dangerously, description, into_safe_op, into_op, request_into_op) the healthy run counts the datagrams the target device services; the operation is then repeated once per position with the device silent from there on, once per position with only that datagram unanswered, and with the working counter increment replaced by 0/2/3/0xffff. Never Ok for a silent device; single-datagram entry points give exactly WorkingCounter{expected, received} with the wire's values; 'only datagram j unanswered' may fail or must return exactly the healthy result.",
+   note="Positions are enumerated exhaustively per (configuration, entry point); configurations are seeded samples. WrappedWrite::send is outside the quantifier. In group transitions an unanswered state request (FPWR to AL control) must surface as WorkingCounter{1,0}; other member datagrams may also end in a transition timeout (status polls opt out of the check).",
    technique="deterministic simulation: exhaustive enumeration of device drop-out / unanswered-datagram positions and counter tampering per operation on the segment reference model", section="DESIGN.md §4 C11")
 
 CLAIMED["C15"] = dict(
@@ -77,7 +77,7 @@ CLAIMED["C16"] = dict(
 
 CLAIMED["C17"] = dict(
    text="A physical DC model (tree of devices, per-link cable delays, per-device forwarding delays, local clocks with arbitrary offsets, 32/64 bit) lets the latching broadcast stamp every open port along the real path of the frame; 1..24 devices in chains, forks, crosses and nested junctions, mixed DC support, clock wrap forced to fall inside the frame's trip in a third of the runs, plus scripted impossible link reports. Oracle: reconstructed parent of every device == true parent (through a cfg-gated accessor), programmed delay non-decreasing in processing order, == true one-way delay on pure chains with equal delays (1 ns per hop), offset register == master time handed to init - latched receive time, static sync FRMW addresses the first DC device, impossible reports => error not panic.",
-   note="Junction devices are DC capable (a junction without port times makes what lies behind its ports unmeasurable for any master). On trees and with unequal delays exactness of the delay value is not required (the statement requires it on pure chains only); exact/inexact counts on trees are reported as probes.",
+   note="In the main class junction devices are DC capable (a junction without port times makes what lies behind its ports unmeasurable for any master); a separate class has junctions without DC support and keeps the tree/ports/offset/reference/monotonicity clauses only. On trees and with unequal delays exactness of the delay value is not required (the statement requires it on pure chains only); exact/inexact counts on trees are reported as probes.",
    technique="deterministic simulation: real topology/DC code against a physical propagation model of the segment with seeded trees, delays and clock offsets", section="DESIGN.md §4 C17")
 CLAIMED["C18"] = dict(
    text="1..8 devices with every mix of DC support and DcSync setting; periods, start delays and shifts from boundary sets up to and beyond 32 bit nanoseconds; the reference clock of the model is set to boundary and random 64 bit values for configure_dc_sync and for every tx_rx_dc cycle. Oracle: only DC capable devices that asked receive DC sync register writes; SYNC0 start is a multiple of the period in (ref+delay-period, ref+delay]; cycle registers and activation byte per mode; out-of-range period/delay and a missing reference clock give errors; CycleInfo == (ref mod period, period - offset + shift) for every value; run in a release build and in a build with overflow checks.",
@@ -86,8 +86,8 @@ CLAIMED["C18"] = dict(
 
 CLAIMED["C20"] = dict(
    text="2..8 devices in 2..3 groups brought to OP through the real init/into_op on one MainDevice; 2..4 tasks (process data cycles of different groups, register writes/reads, EEPROM reads, SDO reads/writes on different SubDevices) polled in an order drawn at every await point, per-frame latency 0..500 us so that responses overtake each other, 2..32 frame slots (just enough for one frame per task upwards), frame sizes 192..1514. Oracle: each task's whole result sequence (values, working counters, process images, state lists) equals the sequence of the same task run alone on a clone of the post-initialisation segment, and contains no error.",
-   note="Interleavings are at await-point granularity as the property states; sub-poll interleavings of the PDU loop itself belong to C01/C02. No faults are injected here (the property has none).",
-   technique="deterministic simulation: cooperative tasks on a seeded scheduler, randomised wire latency, sequential oracle on a cloned segment model", section="DESIGN.md §4 C20")
+   note="First batch: await-point granularity, no faults. Second batch (fibre engine, evidence check name concurrent-tasks-subpoll): register-level requests of 2..3 tasks pre-empted at every instrumented shared-state access of the PDU loop while task 0 disturbs (its responses are lost, its requests time out, are retried or dropped); the other tasks must complete exactly and never fail; time only advances when every party is blocked.",
+   technique="deterministic simulation: cooperative tasks on a seeded scheduler, randomised wire latency, sequential oracle on a cloned segment model; plus seeded fibre scheduler over the PDU loop with one fault-injected disturbing task", section="DESIGN.md §4 C20")
 
 NA = {
  "C19": "pure function of its input (a proc-macro and the code it generates): no schedule, clock, fault, I/O or second party for a simulator to control; input generation alone is not simulation (DESIGN.md §4 C19)",
